@@ -33,6 +33,7 @@ RULES = {
     "R4-allocation": "storage is allocated only under current_len == 0, with (buffer_size,) + value shape and the configured dtype",
     "R5-task-routing": "MultiTaskReplayBuffer: add -> buffers[selected_task] and active_buffers.add(selected_task); sample -> one buffer among active_buffers; select_task validates (the routing of priority updates is decided under C08)",
     "R6-length": "__len__ returns current_len (sum over tasks for the multi-task buffer)",
+    "R7-stored-rows-kept": "a method other than add_sample that replaces a storage field (or the storage entry of the pickled state) by a leading slice field[:n] of it keeps the rows [0, current_len) of the stored transitions: n >= current_len in every reachable ring state",
 }
 
 RB = "rl_blox.blox.replay_buffer."
@@ -701,6 +702,49 @@ def _ring_evidence(p: Poly) -> bool:
     return "φ(" not in c and "⟦" not in c and ingredient_tokens(p) <= RING_TOKENS
 
 
+def _valid_count(nf, p: Poly, also=()):
+    """Is the value the number of stored transitions?  "ok": it is current_len / len(self) (or one of the atoms in ``also`` that stand for it, e.g. a
+    sampler's parameter), also as a min / max form that equals it under the ring invariant 0 <= len <= N, 0 <= insert < N.  A reachable ring
+    state: there the value is another number (evidence; only for values built from the ring state alone).  None: not decided."""
+    a_idx, a_len, a_cap = (Poly.atom(x, {x}, frozenset()) for x in (IDX, LEN, CAP))
+    one = Poly.const(1)
+    inv = [a_idx, a_cap - a_idx - one, a_len, a_cap - a_len, a_cap - one]
+    if p.elems is not None:
+        return None
+    sub = {a: a_len for a in p.atoms() if a == "len(self)" or a in also}
+
+    def deep(q):
+        """substitute inside min / max arguments as well: rebuild nothing, just evaluate structurally"""
+        return q.subst({a: a_len for a in q.atoms() if a == "len(self)" or a in also}) if q.elems is None else q
+
+    def proves(q, depth=0):
+        q = deep(q)
+        if q == a_len:
+            return True
+        m = nf.meta.get(q.single_atom() or "", {})
+        f = m.get("fn", "").split(".")[-1] if isinstance(m.get("fn"), str) else ""
+        args = [deep(x) for x in m.get("args", [])]
+        if depth < 3 and len(args) >= 2 and not m.get("kws") and f in ("min", "minimum", "max", "maximum"):
+            lo_side = f in ("min", "minimum")
+            rest_ok = lambda x: proves(x, depth + 1) or (x.elems is None and _nonneg((x - a_len) if lo_side else (a_len - x), inv))
+            return any(proves(x, depth + 1) for x in args) and all(rest_ok(x) for x in args)
+        return False
+    if proves(p):
+        return "ok"
+    q = p.subst(sub) if sub else p
+    if not _ring_evidence(q):
+        return None
+    alias = {a: LEN for a in also}
+    for st, _wi, _wl in _ring_states():
+        st = dict(st, **{a: st[LEN] for a in alias})
+        try:
+            if _num(p, st) != st[LEN]:
+                return st
+        except _NoValue:
+            return None
+    return None
+
+
 def _gather_one(ck, repo, nf, cq, samplers):
     from ..sem import field_gathers
     fn = _m(repo, cq, "sample_batch")
@@ -809,8 +853,15 @@ def _gather_bound(ck, repo, nf, cq, site, mi, cfg, draws, samplers):
             hip = nf.poly(hi, sc, at_src) + (Poly.const(1) if incl else Poly.const(0))
             lop = nf.poly(lo, sc, at_src) if lo is not None else Poly.const(0)
             his, los = hip.canon(), lop.canon()
-            ok = his in (LEN, "len(self)", f"arange({LEN})", "arange(len(self))") and los == "0"
-            if not ok and not (_ring_evidence(hip) and _ring_evidence(lop)):
+            vh = "ok" if his in (LEN, "len(self)", f"arange({LEN})", "arange(len(self))") else _valid_count(nf, hip)
+            vl = "ok" if los == "0" else None
+            if vl is None and _ring_evidence(lop):
+                try:
+                    vl = next((st for st, _wi, _wl in _ring_states() if _num(lop, st) != 0), None)
+                except _NoValue:
+                    vl = None
+            ok = vh == "ok" and vl == "ok"
+            if not ok and not (isinstance(vh, dict) or isinstance(vl, dict)):
                 raise AnalysisError(f"{site}: index vector drawn from [{los[:40]}, {his[:40]}) (unrecognised form)")
             ck.ob("R3-index-bound", site, "uniform-over-valid-prefix", ok, f"{ixn} = {short(src, 60)}: range [{los}, {his})",
                   "" if ok else "indices must be drawn from [0, current_len): slots beyond current_len were never written (and a positive lower bound never returns the oldest transitions)", loc(mi, src))
@@ -829,8 +880,9 @@ def _gather_bound(ck, repo, nf, cq, site, mi, cfg, draws, samplers):
         ck.need(ps[0] in b, f"{site}: `{short(src, 50)}` does not pass the number of valid entries `{ps[0]}` (unrecognised form)")
         gotp = nf.poly(b[ps[0]], sc, at_src)
         got = gotp.canon()
-        ok = got in (LEN, "len(self)")
-        if not ok and not _ring_evidence(gotp):
+        vg = _valid_count(nf, gotp)
+        ok = vg == "ok"
+        if not ok and not isinstance(vg, dict):
             raise AnalysisError(f"{site}: the sampler is restricted to `{got[:60]}` entries (unrecognised form)")
         ck.ob("R3-index-bound", site, "sampler-gets-current-len", ok, f"{ixn} = {short(src, 70)}: {ps[0]} <- {got}", "" if ok else "the priority sampler must be restricted to the first current_len entries", loc(mi, src))
         store_field = "self.priority" if RB + "PriorityBuffer" in repo.mro(cm[0]) else f"{recv}.priority.priority" if recv == "self" else None
@@ -866,15 +918,47 @@ def _ifexp_variants(fn, site, attr, limit=3):
     return out
 
 
-def _sampler_sliced(ck, repo, nf, owner, meth, fn, field):
-    """The sampler restricts the stored priorities to [:n] (n = its first parameter): every occurrence of the store in the returned indices is that slice."""
+def _sampler_sliced(ck, repo, nf, owner, meth, fn, field, more=None):
+    """The sampler restricts the stored priorities to [:n] (n = its first parameter): every occurrence of the store in the returned indices is that slice,
+    or the indices are those of another sampler that is given n (appended to ``more``: that sampler carries the obligation)."""
     mi = fn._module
     site = f"{owner}.{meth}"
     ps = positional_params(fn)
     ck.need(len(ps) >= 2, f"{site}: no parameter for the number of valid entries (anchor vanished)")
     lenp = ps[1]
     env = {p: Poly.atom(p, {p}, {p}) for p in param_names(fn)}
-    good, bare, other = [], [], []
+    good, bare, other, wide = [], [], [], []
+
+    def delegated(m):
+        """The atom is a call of another sampler of the buffer / of its priority store (`self.meth(...)`, `self.<attr>.meth(...)`), bound by
+        the callee's signature: (callee owner, name, callee, its store field, what its number-of-valid-entries parameter receives), else None."""
+        f = m.get("fn", "")
+        if not isinstance(f, str) or "." not in f or "args" not in m:
+            return None
+        recv, name = f.rsplit(".", 1)
+        if recv == "self":
+            cown = owner
+        elif recv.startswith("self.") and recv[len("self."):].isidentifier():
+            cown = _attr_class(repo, owner, recv[len("self."):])
+        else:
+            return None
+        cm = repo.method(cown, name) if cown else None
+        if cm is None or cm[1] is fn or not any(isinstance(x, ast.Call) and isinstance(x.func, ast.Attribute) and x.func.attr in DRAWS for x in ast.walk(cm[1])):
+            return None
+        callee = cm[1]
+        cps = positional_params(callee)
+        if len(cps) < 2 or callee.args.vararg is not None or any(str(k).startswith("*") for k in m.get("kws", {})):
+            return None
+        if RB + "PriorityBuffer" in repo.mro(cm[0]):
+            cfield = "self.priority"
+        elif recv == "self":
+            cfield = field
+        else:
+            return None
+        bound = dict(zip(cps[1:], m["args"]))
+        bound.update({k: v for k, v in m.get("kws", {}).items() if k not in bound})
+        callee._module = repo.cls(cm[0])._module
+        return cm[0], name, callee, cfield, bound.get(cps[1])
 
     def walk(p: Poly, under=""):
         if p.elems is not None:
@@ -884,6 +968,23 @@ def _sampler_sliced(ck, repo, nf, owner, meth, fn, field):
         for a in p.atoms():
             a = a[1:] if a.startswith("*") else a          # f(*xs): the unpacked value is read like the value
             m = nf.meta.get(a)
+            dg = delegated(m) if m else None
+            if dg is not None:
+                # the indices are those of another sampler: restricted to [:n] when that sampler is (its own obligation) and it is given n
+                given = dg[4].canon() if dg[4] is not None else None
+                # the caller's own number-of-valid-entries parameter stands for current_len (R3 sampler-gets-current-len decides what it receives)
+                vg = _valid_count(nf, dg[4], also=(lenp,)) if dg[4] is not None and (RB + "ReplayBuffer" in repo.mro(owner) or LEN not in dg[4].atoms()) else None
+                if vg == "ok":
+                    good.append(a)
+                    if more is not None:
+                        more.append(dg[:4])
+                elif isinstance(vg, dict):
+                    wide.append((a, given))             # a known other quantity of the ring (capacity, write position): not the number of valid entries
+                else:
+                    other.append(a)
+                for x in list(m.get("args", [])) + list(m.get("kws", {}).values()):
+                    walk(x, "call")
+                continue
             if a == field:
                 if under not in ("shape", "dtype", "size", "ndim", "len"):
                     bare.append(a)
@@ -908,11 +1009,16 @@ def _sampler_sliced(ck, repo, nf, owner, meth, fn, field):
     if bare:
         ck.ob("R3-index-bound", site, "priorities-sliced-to-length", False, f"the sampled distribution reads the whole {field}", "an unsliced use of the priority store takes part in sampling: never-written slots can be drawn", loc(mi, fn))
         return
+    if wide:
+        ck.ob("R3-index-bound", site, "priorities-sliced-to-length", False, f"`{wide[0][0][:90]}` restricts the draw to {wide[0][1]} entries",
+              f"the sampler hands the draw to another sampler but restricts it to `{wide[0][1]}` entries instead of the {lenp} valid ones: never-written slots can be drawn (or stored ones never)", loc(mi, fn))
+        return
     if other:
         raise AnalysisError(f"{site}: stored priorities are read as `{other[0][:80]}` (unrecognised form)")
     if not good:
         raise AnalysisError(f"{site}: stored priorities do not occur in the returned indices (unrecognised idiom)")
-    ck.ob("R3-index-bound", site, "priorities-sliced-to-length", True, f"every use of {field} in the sampled distribution is {field}[:{lenp}]", "", loc(mi, fn))
+    via = sorted({nf.meta[a]["fn"] for a in good if nf.meta.get(a, {}).get("fn") not in (None, "subscript")})
+    ck.ob("R3-index-bound", site, "priorities-sliced-to-length", True, f"every use of {field} in the sampled distribution is {field}[:{lenp}]" + (f" or the indices of {via} restricted to {lenp} entries" if via else ""), "", loc(mi, fn))
 
 
 def _gather(ck, repo, nf):
@@ -926,8 +1032,15 @@ def _gather(ck, repo, nf):
             m[1]._module = repo.cls(m[0])._module
             samplers[(m[0], meth)] = (m[1], field)
     ck.need(samplers, "no priority sampler found (anchor vanished)")
-    for (owner, meth), (fn, field) in samplers.items():
-        ck.guard(_sampler_sliced, ck, repo, nf, owner, meth, fn, field)
+    work, done = [(o_, m_, f_, fl_) for (o_, m_), (f_, fl_) in samplers.items()], set()
+    while work:
+        owner, meth, fn, field = work.pop(0)
+        if (owner, meth) in done:
+            continue
+        done.add((owner, meth))
+        more = []
+        ck.guard(_sampler_sliced, ck, repo, nf, owner, meth, fn, field, more)
+        work += more            # a sampler that hands the draw to another one: that one carries the obligation
 
 
 # ---------------------------------------------------------------------------------------------------------------------------
@@ -945,8 +1058,9 @@ def _length_of(ck, repo, nf, cq):
     fn = _m(repo, cq, "__len__")
     mi = fn._module
     vals = _returned(nf, fn, mi, f"{cq}.__len__")
-    ok = all(v.canon() == LEN for v in vals)
-    if not ok and not all(_ring_evidence(v) for v in vals):
+    vs = [_valid_count(nf, v) for v in vals]
+    ok = all(v == "ok" for v in vs)
+    if not ok and not any(isinstance(v, dict) for v in vs):
         raise AnalysisError(f"{cq}.__len__: returns {sorted(v.canon()[:60] for v in vals)} (unrecognised form)")
     ck.ob("R6-length", f"{cq}.__len__", "returns-current-len", ok, f"return {sorted({v.canon() for v in vals})}", "" if ok else "length must be the number of stored transitions", loc(mi, fn))
 
@@ -1005,8 +1119,9 @@ def _inherits_len(ck, repo, nf, cq):
     fn = _m(repo, cq, "__len__", inherited=False)
     vals = _returned(nf, fn, fn._module, f"{cq}.__len__")
     sup = nf.poly(parse_expr("super().__len__()"), Scope(None, fn._module, {}, cq), None).canon()
-    ok = all(v.canon() in (LEN, sup) for v in vals)
-    if not ok and not all(_ring_evidence(v) for v in vals):
+    vs = ["ok" if v.canon() == sup else _valid_count(nf, v) for v in vals]
+    ok = all(v == "ok" for v in vs)
+    if not ok and not any(isinstance(v, dict) for v in vs):
         raise AnalysisError(f"{cq}.__len__: returns {sorted(v.canon()[:60] for v in vals)} (unrecognised form)")
     ck.ob("R6-length", cq, "inherits:__len__", ok, f"{cq.rsplit('.', 1)[1]}.__len__ returns {sorted({v.canon() for v in vals})}", "" if ok else "overrides the length with something else than the number of stored transitions", cq)
 
@@ -1130,6 +1245,7 @@ def _mt_add(ck, repo, nf):
         # the task is identified by its index or, equivalently, by its member buffer
         if marked in (SEL, f"self.buffers[{SEL}]"):
             marks.append((n, marked, el))
+            nf._c02_active_holds = "id" if marked == SEL else "member"
         elif mp.is_const() or ingredient_tokens(mp) <= {"self", "sampled_task_idx", "buffers"}:
             okm, whym = False, f"`{marked[:40]}` is marked active, not the task that received the transition"
         else:
@@ -1228,49 +1344,126 @@ def _mt_select(ck, repo, nf):
 
 
 def _mt_sample(ck, repo, nf):
+    """The batch comes from one member, and that member is an element of the active set: `buffers[i]` with i an element of active_buffers
+    (the set holds task ids) or an element of active_buffers itself (the set holds the member buffers).  An element of the set is what
+    `rng.choice(<sequence of the set>)` returns, or *any* position of a sequence built from the set (list / sorted / tuple / array of it)."""
     cq = MT
     fn = _m(repo, cq, "sample_batch")
     mi = fn._module
     cfg = nf.cfg_of(fn)
     site = f"{cq}.sample_batch"
-    samples = [(n_, c_) for n_, c_ in stmt_calls(cfg, lambda c: isinstance(c.func, ast.Attribute) and c.func.attr == "sample_batch") if recv_canon(nf, cfg, mi, n_, c_).startswith("self.buffers[")]
+    samples = [(n_, c_) for n_, c_ in stmt_calls(cfg, lambda c: isinstance(c.func, ast.Attribute) and c.func.attr == "sample_batch" and dotted(c.func.value) != "self" and _is_base_call(repo, cq, mi, c, "sample_batch") is None)]
     ck.need(len(samples) == 1, f"{site}: expected one member sample_batch call")
     n, c = samples[0]
-    rv_ = c.func.value
-    if isinstance(rv_, ast.Name):
-        ds_ = cfg.defs_of(n.id, rv_.id)
-        ck.need(len(ds_) == 1 and ds_[0].kind == "assign" and isinstance(ds_[0].value, ast.Subscript), f"{site}: member alias `{rv_.id}` not recognised")
-        rv_ = ds_[0].value
-    ck.need(isinstance(rv_, ast.Subscript), f"{site}: member `{short(rv_, 40)}` not recognised")
-    ixe = rv_.slice
-    # the index value: through attribute store / local
-    src = None
-    if isinstance(ixe, ast.Attribute) and dotted(ixe.value) == "self":
-        w = [m for m in cfg.nodes if m.kind == "stmt" and isinstance(m.ast, (ast.Assign, ast.AnnAssign)) and getattr(m.ast, "value", None) is not None and any(dotted(t) == dotted(ixe) for t in _flat_targets(m.ast))]
-        if len(w) == 1 and cfg.dominates(w[0].id, n.id) and len(_flat_targets(w[0].ast)) == 1:
-            src = (w[0].ast.value, w[0].id)
-    elif isinstance(ixe, ast.Name):
-        ds = cfg.defs_of(n.id, ixe.id)
-        if len(ds) == 1 and ds[0].kind == "assign":
-            src = (ds[0].value, ds[0].node)
-    ck.need(src is not None, f"{site}: the sampled member index `{short(ixe)}` has no single dominating definition (unrecognised idiom)")
-    choice = [x for x in ast.walk(src[0]) if isinstance(x, ast.Call) and isinstance(x.func, ast.Attribute) and x.func.attr in ("choice", "integers", "randint")]
-    if len(choice) != 1 and isinstance(src[0], ast.Name):
-        ds = cfg.defs_of(src[1], src[0].id)
-        if len(ds) == 1 and ds[0].kind == "assign":
-            src = (ds[0].value, ds[0].node)
-            choice = [x for x in ast.walk(src[0]) if isinstance(x, ast.Call) and isinstance(x.func, ast.Attribute) and x.func.attr in ("choice", "integers", "randint")]
-    ck.need(len(choice) == 1, f"{site}: member index `{short(src[0], 60)}` is not one random draw (unrecognised idiom)")
-    popx = arg_of(choice[0], 0, "a") if choice[0].func.attr == "choice" else None
-    if popx is None:
-        raise AnalysisError(f"{site}: population of the member draw `{short(choice[0], 60)}` not recognised")
-    pop = nf.poly(popx, Scope(cfg, mi, {}, cq), src[1]).canon()
-    from_active = "self.active_buffers" in pop and "self.buffers" not in pop.replace("self.active_buffers", "")
-    from_all = "self.buffers" in pop.replace("self.active_buffers", "") or "n_tasks" in pop
-    if not from_active and not from_all:
-        raise AnalysisError(f"{site}: population `{pop}` of the member draw not recognised")
-    ck.ob("R5-task-routing", site, "single-active-task", from_active, f"member ~ {short(choice[0], 70)}; batch from buffers[{short(ixe)}]",
-          "" if from_active else "the member must be drawn among the tasks that already have data (active_buffers), not among all tasks", loc(mi, choice[0]))
+
+    def resolve(e, at):
+        """Through local aliases and attributes of self with one dominating single-target assignment in this method: (expression, node where it is evaluated)."""
+        for _ in range(10):
+            if isinstance(e, ast.Name):
+                ds = cfg.defs_of(at, e.id)
+                if len(ds) == 1 and ds[0].kind == "assign" and ds[0].value is not None:
+                    e, at = ds[0].value, ds[0].node
+                    continue
+            elif isinstance(e, ast.Attribute) and dotted(e.value) == "self":
+                w = [m for m in cfg.nodes if m.kind == "stmt" and isinstance(m.ast, (ast.Assign, ast.AnnAssign)) and getattr(m.ast, "value", None) is not None and any(dotted(t) == dotted(e) for t in _flat_targets(m.ast))]
+                if len(w) == 1 and w[0].id != at and cfg.dominates(w[0].id, at) and len(_flat_targets(w[0].ast)) == 1:
+                    e, at = w[0].ast.value, w[0].id
+                    continue
+            elif isinstance(e, ast.Call) and isinstance(e.func, ast.Name) and e.func.id == "int" and len(e.args) == 1 and not e.keywords:
+                e = e.args[0]
+                continue
+            elif isinstance(e, ast.Call) and isinstance(e.func, ast.Attribute) and e.func.attr == "item" and not e.args and not e.keywords:
+                e = e.func.value
+                continue
+            break
+        return e, at
+
+    def seq_of_active(e, at, depth=0) -> bool:
+        e, at = resolve(e, at)
+        if dotted(e) == "self.active_buffers":
+            return True
+        if depth < 4 and isinstance(e, (ast.List, ast.Tuple, ast.Set)) and e.elts and all(isinstance(x, ast.Starred) and seq_of_active(x.value, at, depth + 1) for x in e.elts):
+            return True                                                  # [*active_buffers]
+        if depth < 4 and isinstance(e, ast.Call) and e.args and isinstance(e.func, (ast.Name, ast.Attribute)) and (e.func.id if isinstance(e.func, ast.Name) else e.func.attr) in ("list", "sorted", "tuple", "array", "asarray", "fromiter", "frozenset", "set", "permutation", "unique", "sort", "reversed") \
+                and not any(isinstance(a_, ast.Starred) for a_ in e.args):
+            return seq_of_active(e.args[0], at, depth + 1)
+        if depth < 4 and isinstance(e, (ast.ListComp, ast.GeneratorExp)) and len(e.generators) == 1 and isinstance(e.generators[0].target, ast.Name) and dotted(e.elt) == e.generators[0].target.id:
+            g_ = e.generators[0]
+            # every element passed the membership test `x in active_buffers`, whatever is iterated
+            if any(isinstance(t_, ast.Compare) and len(t_.ops) == 1 and isinstance(t_.ops[0], ast.In) and dotted(t_.left) == g_.target.id and seq_of_active(t_.comparators[0], at, depth + 1) for t_ in g_.ifs):
+                return True
+            return seq_of_active(g_.iter, at, depth + 1)        # a filter keeps a subset of the active tasks
+        return False
+
+    def len_of_active(e, at) -> bool:
+        e, at = resolve(e, at)
+        return isinstance(e, ast.Call) and dotted(e.func) == "len" and len(e.args) == 1 and not e.keywords and seq_of_active(e.args[0], at)
+
+    def all_tasks(e, at) -> bool:
+        pp = nf.poly(e, Scope(cfg, mi, {}, cq), at)
+        toks = ingredient_tokens(pp)
+        return bool(toks & {"buffers", "n_tasks"}) and toks <= {"self", "buffers", "n_tasks", "len", "range", "arange", "list", "tuple", "numpy", "np"}
+
+    def element(e, at, depth=0):
+        """(what the expression is an element of: "active" | "all", the expression that shows it), or None."""
+        e, at = resolve(e, at)
+        if isinstance(e, ast.Name) and depth < 4:
+            # several reaching definitions (one per branch): an element of the active set when every one of them is
+            ds = cfg.defs_of(at, e.id)
+            if len(ds) > 1 and all(d.kind == "assign" and d.value is not None for d in ds):
+                got_ = [element(d.value, d.node, depth + 1) for d in ds]
+                if any(g_ is None for g_ in got_):
+                    return None
+                return next((g_ for g_ in got_ if g_[0] != "active"), got_[0])
+            return None
+        if isinstance(e, ast.Call) and isinstance(e.func, ast.Name) and len(e.args) == 1 and not e.keywords:
+            # next(iter(s)), min(s), max(s): one element of s
+            inner = e.args[0]
+            if e.func.id == "next" and isinstance(inner, ast.Call) and dotted(inner.func) == "iter" and len(inner.args) == 1 and not inner.keywords:
+                inner = inner.args[0]
+            elif e.func.id not in ("min", "max"):
+                inner = None
+            if inner is not None and seq_of_active(inner, at):
+                return "active", e
+        if isinstance(e, ast.Subscript) and not isinstance(e.slice, ast.Slice):
+            v, atv = resolve(e.value, at)
+            if isinstance(v, ast.Call) and isinstance(v.func, ast.Attribute) and v.func.attr == "choice":
+                return element(v, atv)                                   # choice(pop, size=1)[0]
+            if seq_of_active(v, atv):
+                return "active", e
+            return None
+        if isinstance(e, ast.Call) and isinstance(e.func, ast.Attribute) and e.func.attr == "choice" and not any(isinstance(a_, ast.Starred) for a_ in e.args) and not any(k.arg is None for k in e.keywords):
+            popx = arg_of(e, 0, "a")
+            if popx is None:
+                return None
+            if seq_of_active(popx, at):
+                return "active", e
+            if all_tasks(popx, at):
+                return "all", e
+            if len_of_active(popx, at):
+                return "position", e
+        elif isinstance(e, ast.Call) and isinstance(e.func, ast.Attribute) and e.func.attr in ("integers", "randint"):
+            hi = arg_of(e, 1, "high") if (len(e.args) >= 2 or any(k.arg == "high" for k in e.keywords)) else arg_of(e, 0, "low")
+            if hi is not None and all_tasks(hi, at):
+                return "all", e
+            if hi is not None and len_of_active(hi, at):
+                return "position", e
+        return None
+    recv, at_r = resolve(c.func.value, n.id)
+    holds = None
+    if isinstance(recv, ast.Subscript) and not isinstance(recv.slice, ast.Slice) and dotted(resolve(recv.value, at_r)[0]) == "self.buffers":
+        got, holds, shown_member = element(recv.slice, at_r), "id", f"buffers[{short(recv.slice)}]"
+    else:
+        got, holds, shown_member = element(recv, at_r), "member", short(c.func.value)
+    if got is None:
+        raise AnalysisError(f"{site}: the member `{short(recv, 60)}` that provides the batch is not read as an element of the active set / of all tasks (unrecognised form)")
+    marks = getattr(nf, "_c02_active_holds", None)
+    if got[0] == "active" and marks is not None and marks != holds:
+        raise AnalysisError(f"{site}: the active set holds task {marks}s but the batch member is chosen as a task {holds} (unrecognised form)")
+    from_active = got[0] == "active"
+    ck.ob("R5-task-routing", site, "single-active-task", from_active, f"member ~ {short(got[1], 70)}; batch from {shown_member}",
+          "" if from_active else "a position in the sequence of active tasks is used as the task itself: with active tasks other than 0..k-1 the batch comes from a task without data" if got[0] == "position"
+          else "the member must be drawn among the tasks that already have data (active_buffers), not among all tasks", loc(mi, got[1]))
     isret = isinstance(n.ast, ast.Return)
     if not isret and isinstance(n.ast, ast.Assign) and len(n.ast.targets) == 1 and isinstance(n.ast.targets[0], ast.Name) and n.ast.value is c:
         # `batch = member.sample_batch(...); return batch`
@@ -1434,14 +1627,268 @@ def _multitask(ck, repo, nf):
         ck.guard(part, ck, repo, nf)
 
 
+# ---------------------------------------------------------------------------------------------------------------------------
+# R7: whatever replaces or persists the storage keeps every stored row
+_ROW_CLASSES = ("ReplayBuffer", "LAP", "PrioritizedReplayBuffer", "SubtrajectoryReplayBuffer", "SubtrajectoryReplayBufferPER")
+_COPIES = {"asarray", "array", "copy", "ascontiguousarray", "asanyarray", "deepcopy"}
+
+
+def _is_storage(cfg, at, e, depth=0) -> bool:
+    """The expression is the storage dict: self.buffer, the "buffer" entry of a state dict, or a local that holds one of them."""
+    if dotted(e) == "self.buffer":
+        return True
+    if isinstance(e, ast.Subscript) and isinstance(e.slice, ast.Constant) and e.slice.value == "buffer":
+        return True
+    if isinstance(e, ast.Name) and depth < 6:
+        ds = cfg.defs_of(at, e.id)
+        return bool(ds) and all(d.kind == "assign" and d.value is not None and _is_storage(cfg, d.node, d.value, depth + 1) for d in ds)
+    return False
+
+
+def _is_column(cfg, at, e, depth=0) -> bool:
+    """The expression is one field's array of the storage: storage[k], the value variable of an iteration over storage.items() / .values(),
+    or a local that holds one of them."""
+    if isinstance(e, ast.Subscript) and not isinstance(e.slice, ast.Slice) and _is_storage(cfg, at, e.value):
+        return True
+    if not isinstance(e, ast.Name) or depth > 6:
+        return False
+    # bound by an enclosing comprehension / for loop over the storage?
+    child, par = e, getattr(e, "_parent", None)
+    while par is not None and not isinstance(par, (ast.FunctionDef, ast.AsyncFunctionDef, ast.Lambda)):
+        gens = par.generators if isinstance(par, (ast.DictComp, ast.ListComp, ast.GeneratorExp, ast.SetComp)) else [par] if isinstance(par, ast.For) and child is not par.iter else []
+        for g in gens:
+            names = {x.id for x in ast.walk(g.target) if isinstance(x, ast.Name)}
+            if e.id not in names:
+                continue
+            it = g.iter
+            while isinstance(it, ast.Call) and isinstance(it.func, ast.Name) and it.func.id in ("list", "tuple", "sorted") and len(it.args) == 1 and not it.keywords:
+                it = it.args[0]
+            if isinstance(it, ast.Call) and isinstance(it.func, ast.Attribute) and not it.args and not it.keywords and _is_storage(cfg, at, it.func.value):
+                if it.func.attr == "values" and isinstance(g.target, ast.Name):
+                    return True
+                if it.func.attr == "items" and isinstance(g.target, (ast.Tuple, ast.List)) and len(g.target.elts) == 2 and dotted(g.target.elts[1]) == e.id:
+                    return True
+            return False            # bound by this iteration to something else
+        child, par = par, getattr(par, "_parent", None)
+    ds = cfg.defs_of(at, e.id)
+    return bool(ds) and all(d.kind == "assign" and d.value is not None and _is_column(cfg, d.node, d.value, depth + 1) for d in ds)
+
+
+def _leading_slice(sub: ast.Subscript):
+    """(lower, upper) of `x[lo:hi]`, `x[lo:hi, ...]`, `x[lo:hi, :]`; None for anything that is not a plain restriction of the rows."""
+    sl = sub.slice
+    if isinstance(sl, ast.Tuple):
+        if not sl.elts or not all((isinstance(x, ast.Constant) and x.value is Ellipsis) or (isinstance(x, ast.Slice) and x.lower is None and x.upper is None and x.step is None) for x in sl.elts[1:]):
+            return None
+        sl = sl.elts[0]
+    if not isinstance(sl, ast.Slice) or not (sl.step is None or (isinstance(sl.step, ast.Constant) and sl.step.value == 1)):
+        return None
+    return sl.lower, sl.upper
+
+
+def _field_value_position(x):
+    """Walk up from an expression through value-transparent wrappers (copies, arms of conditional expressions).  Returns (top, conds, kind):
+    kind says where the value ends up - "store" (right-hand side of `target[...] = value` / `target = value`), "entry" (value of a dict comprehension,
+    second component of a (key, value) pair of a comprehension, value of a dict display), None (an operand of some other construction)."""
+    conds = []
+    while True:
+        par = getattr(x, "_parent", None)
+        if isinstance(par, ast.IfExp) and x is not par.test:
+            conds.append((par.test, x is par.body))
+            x = par
+        elif isinstance(par, ast.Call) and len(par.args) == 1 and par.args[0] is x and isinstance(par.func, (ast.Name, ast.Attribute)) and (par.func.id if isinstance(par.func, ast.Name) else par.func.attr) in _COPIES \
+                and all(k.arg in ("dtype", "copy", "order") for k in par.keywords):
+            x = par
+        elif isinstance(par, ast.Attribute) and par.value is x and par.attr == "copy" and isinstance(getattr(par, "_parent", None), ast.Call) and par._parent.func is par and not par._parent.args and not par._parent.keywords:
+            x = par._parent
+        else:
+            break
+    if isinstance(par, (ast.Assign, ast.AnnAssign)) and par.value is x:
+        return x, conds, "store"
+    if isinstance(par, ast.DictComp) and par.value is x:
+        return x, conds, "entry"
+    if isinstance(par, ast.Dict) and any(v is x for v in par.values):
+        return x, conds, "entry"
+    if isinstance(par, ast.Tuple) and len(par.elts) == 2 and par.elts[1] is x and isinstance(getattr(par, "_parent", None), (ast.GeneratorExp, ast.ListComp)) and par._parent.elt is par:
+        return x, conds, "entry"
+    return x, conds, None
+
+
+def _storage_sinks(fn, cfg):
+    """Statements that replace the storage, a field of it, or the storage entry of a persisted state: [(node, expression that becomes the storage)]."""
+    out = []
+    for n in cfg.nodes:
+        s = n.ast
+        if n.kind != "stmt" or s is None:
+            continue
+        if isinstance(s, (ast.Assign, ast.AnnAssign)) and getattr(s, "value", None) is not None:
+            for t in _flat_targets(s):
+                if dotted(t) == "self.buffer" or (isinstance(t, ast.Subscript) and (_is_storage(cfg, n.id, t.value) or _is_storage(cfg, n.id, t))):
+                    out.append((n, s.value))
+        for x in ast.walk(s):
+            if isinstance(x, ast.Dict):
+                out += [(n, v) for k, v in zip(x.keys, x.values) if isinstance(k, ast.Constant) and k.value == "buffer"]
+            elif isinstance(x, ast.Call) and isinstance(x.func, ast.Attribute) and x.func.attr in ("update", "__setitem__", "setdefault") or isinstance(x, ast.Call) and dotted(x.func) in ("dict", "setattr"):
+                out += [(n, k.value) for k in x.keywords if k.arg == "buffer"]
+                if len(x.args) >= 2 and isinstance(x.args[-2], ast.Constant) and x.args[-2].value == "buffer":
+                    out.append((n, x.args[-1]))
+    return out
+
+
+def _reaching_exprs(fn, cfg, at, e, seen, depth=0):
+    """The expression and the right-hand sides that build the locals it reads (plain assignments and element stores into those locals)."""
+    out = [(at, e)]
+    if depth > 4:
+        return out
+    for x in ast.walk(e):
+        if isinstance(x, ast.Name) and isinstance(x.ctx, ast.Load) and x.id not in seen and x.id != "self":
+            seen.add(x.id)
+            for d in cfg.defs_of(at, x.id):
+                if d.kind == "assign" and d.value is not None:
+                    out += _reaching_exprs(fn, cfg, d.node, d.value, seen, depth + 1)
+            for n in cfg.nodes:
+                s = n.ast
+                if n.kind == "stmt" and isinstance(s, (ast.Assign, ast.AnnAssign)) and getattr(s, "value", None) is not None and any(isinstance(t, ast.Subscript) and dotted(t.value) == x.id for t in _flat_targets(s)):
+                    out += _reaching_exprs(fn, cfg, n.id, s.value, seen, depth + 1)
+    return out
+
+
+def _stored_rows_method(ck, repo, nf, cq, fn):
+    mi = fn._module
+    site = f"{cq}.{fn.name}"
+    cfg = nf.cfg_of(fn)
+    sinks = _storage_sinks(fn, cfg)
+    if not sinks:
+        return 0
+    one = Poly.const(1)
+    a_idx, a_len, a_cap = (Poly.atom(x, {x}, frozenset()) for x in (IDX, LEN, CAP))
+    len_self = nf.poly(parse_expr("len(self)"), Scope(None, mi, {}, site), None).single_atom()
+
+    def norm(p):
+        return p.subst({len_self: a_len}) if p.elems is None and len_self and len_self in p.atoms() else p
+    invariant = [a_idx, a_cap - a_idx - one, a_len, a_cap - a_len, a_cap - one]
+    # a method that also rewrites the ring state (a reset, a restore) gives the rows another meaning: not read
+    ring_written = any(isinstance(t, ast.Attribute) and dotted(t) in (IDX, LEN, CAP) for n in cfg.nodes if n.kind == "stmt" and isinstance(n.ast, (ast.Assign, ast.AugAssign, ast.AnnAssign)) for t in _flat_targets(n.ast))
+
+    def covers(hip, facts, depth=0) -> bool:
+        """hip >= current_len under the facts: the restriction [:hip] keeps every stored row."""
+        if hip.elems is not None:
+            return False
+        if hip in (a_len, a_cap) or _nonneg(hip - a_len, facts):
+            return True
+        m = nf.meta.get(hip.single_atom() or "", {})
+        f = m.get("fn", "").split(".")[-1] if isinstance(m.get("fn"), str) else ""
+        if depth < 3 and m.get("args") and not m.get("kws") and len(m["args"]) >= 2:
+            if f in ("max", "maximum"):
+                return any(covers(norm(q), facts, depth + 1) for q in m["args"])
+            if f in ("min", "minimum"):
+                return all(covers(norm(q), facts, depth + 1) for q in m["args"])
+        return False
+    reads, seen_reads = [], set()
+    for n, e in sinks:
+        for at, ex in _reaching_exprs(fn, cfg, n.id, e, set()):
+            for x in ast.walk(ex):
+                if isinstance(x, ast.Subscript) and isinstance(x.ctx, ast.Load) and id(x) not in seen_reads and _leading_slice(x) is not None and _is_column(cfg, at, x.value):
+                    seen_reads.add(id(x))
+                    reads.append(x)
+    count = 0
+    for x in reads:
+        top, ifconds, kind = _field_value_position(x)
+        if kind is None:
+            continue                    # an operand of a larger construction (concatenation, arithmetic ...): not a plain restriction of the rows
+        lo, hi = _leading_slice(x)
+        node = cfg.node_of(x)
+        verdicts = []
+        for path in _paths(cfg, cfg.entry, {node.id}, site):
+            pe = PathEval(nf, cfg, mi, site, {}, self_class=None)
+            rp = _RingPath()
+            for nid, lab in path[:-1]:
+                m_ = cfg.nodes[nid]
+                if lab == "exc":
+                    raise AnalysisError(f"{site}: exception handlers around `{short(x, 50)}` (unrecognised form)")
+                if m_.kind == "test" and hasattr(m_.ast, "test") and lab in (True, False):
+                    rp.conds.append((_cond_tree(pe, nf, m_.ast.test, norm), lab, nid))
+                elif m_.kind == "stmt" and isinstance(m_.ast, ast.Assert):
+                    rp.conds.append((_cond_tree(pe, nf, m_.ast.test, norm), True, nid))
+                pe.step(nid, lab)
+            for t_, truth in ifconds:
+                rp.conds.append((_cond_tree(pe, nf, t_, norm), truth, -1))
+            facts, nes, unknown = _path_facts(rp)
+            facts = _close(invariant + facts, nes)
+            if _nonneg(a_cap - a_len - one, facts):
+                facts += [a_idx - a_len, a_len - a_idx]         # before the first wrap the write position is the fill level (ring induction)
+            if _infeasible(facts):
+                continue
+            lop = norm(pe.ev(lo)) if lo is not None else Poly.const(0)
+            hip = norm(pe.ev(hi)) if hi is not None else a_cap
+            if lop.is_zero() and covers(hip, facts):
+                verdicts.append(("ok", hip, lop, None, rp))
+                continue
+
+            def drops(st, wi, wl, lop=lop, hip=hip):
+                l_, h_ = _num(lop, st), _num(hip, st)
+                l_, h_ = (l_ + st[CAP] if l_ < 0 else l_), (h_ + st[CAP] if h_ < 0 else h_)
+                return st[LEN] > 0 and (h_ < st[LEN] or l_ > 0)
+            w = None
+            if _ring_evidence(lop) and _ring_evidence(hip):
+                w = _witness(rp, None, drops)
+            verdicts.append(("bad", hip, lop, w, rp) if w is not None and not ring_written else ("und", hip, lop, None, rp))
+        bad = next((v for v in verdicts if v[0] == "bad"), None)
+        und = next((v for v in verdicts if v[0] == "und"), None)
+        shown = short(x, 60)
+        if bad is not None:
+            _, hip, lop, w, rp = bad
+            count += 1
+            ck.ob("R7-stored-rows-kept", site, f"restriction-keeps-stored-rows:{short(x.value, 20)}", False, f"`{shown}` becomes the field's storage under {[(_show_tree(t), truth) for t, truth, _ in rp.conds]}",
+                  f"the rows [0, current_len) hold the stored transitions; from the reachable state {_fmt_state(w)} this restriction keeps rows [{_num(lop, w)}, {_num(hip, w)}) only: stored transitions are lost",
+                  loc(mi, x), witness=[f"state {_fmt_state(w)}", f"rows kept: [:{hip.canon()[:60]}] = [:{_num(hip, w)}], stored rows: [:{w[LEN]}]"])
+        elif und is not None:
+            raise AnalysisError(f"{site}: `{shown}` replaces a storage field - whether rows [0, current_len) are kept is not decided (unrecognised form)")
+        elif verdicts:
+            count += 1
+            ck.ob("R7-stored-rows-kept", site, f"restriction-keeps-stored-rows:{short(x.value, 20)}", True, f"`{shown}` keeps rows [0, current_len)", "", loc(mi, x))
+    return count
+
+
+def _stored_rows(ck, repo, nf):
+    """A method (other than the addition itself) that replaces the storage, or the storage entry of the persisted state, by a leading slice of a field keeps rows [0, current_len)."""
+    total = 0
+    for cname in _ROW_CLASSES:
+        cq = RB + cname
+        try:
+            cn = repo.cls(cq)
+        except Exception:
+            continue
+        for meth in cn.body:
+            if not isinstance(meth, ast.FunctionDef) or meth.name in ("add_sample", "__init__"):
+                continue
+            meth._module = cn._module
+
+            def one(meth=meth, cq=cq):
+                nonlocal total
+                total += _stored_rows_method(ck, repo, nf, cq, meth)
+            ck.guard(one)
+    if not total:
+        ck.ob("R7-stored-rows-kept", RB + "ReplayBuffer", "restriction-keeps-stored-rows", True, "no method outside add_sample replaces or persists a storage field as a row restriction of it", "", loc(repo.cls(RB + "ReplayBuffer")._module, repo.cls(RB + "ReplayBuffer")))
+
+
 def run(ck, repo: Repo, tier: str):
     nf = NF(repo, inline_depth=1, inline_calls=False)
-    for group in (_ring, _gather, _lengths, _multitask):
+    for group in (_ring, _gather, _lengths, _multitask, _stored_rows):
         ck.guard(group, ck, repo, nf)
 
 
 _F = "rl_blox/blox/replay_buffer.py"
 _RING = "        for k, v in sample.items():\n            self.buffer[k][self.insert_idx] = v\n        self.insert_idx = (self.insert_idx + 1) % self.buffer_size\n        self.current_len = min(self.current_len + 1, self.buffer_size)\n\n    def sample_batch(\n        self, batch_size: int, rng: np.random.Generator\n    ) -> tuple[jnp.ndarray]:"
+_GS = "    def __getstate__(self):\n        d = dict(self.__dict__)\n        del d[\"Batch\"]\n        return d\n\n    def __setstate__(self, d):\n        self.__dict__.update(d)\n        self.Batch = namedtuple(\"Batch\", self.buffer)\n"
+_PAD = "\n    def __setstate__(self, d):\n        self.__dict__.update(d)\n        for name, rows in self.buffer.items():\n            full = np.empty((self.buffer_size,) + rows.shape[1:], dtype=rows.dtype)\n            full[: len(rows)] = rows\n            self.buffer[name] = full\n        self.Batch = namedtuple(\"Batch\", self.buffer)\n"
+
+
+def _gs(body):
+    return "    def __getstate__(self):\n        d = dict(self.__dict__)\n        del d[\"Batch\"]\n" + body + "        return d\n" + _PAD
+
+
+_STRAT = "        priority = self.priority.priority[:current_len]\n        if mask is not None:\n            priority = priority * mask[:current_len]\n        probabilities = np.cumsum(priority)\n\n        # stratified sampling: divide [0, sum_probability] into batch_size segments\n        segment = probabilities[-1] / batch_size\n\n        # sample one uniform value per segment\n        random_points = rng.uniform(\n            low=np.arange(batch_size) * segment,\n            high=(np.arange(batch_size) + 1) * segment,\n            size=batch_size\n        )\n\n        self.priority.sampled_indices = np.searchsorted(\n            probabilities, random_points\n        )\n        return self.priority.sampled_indices\n"
 MUTANTS = [
     {"id": "c02-mt-lazy-member-from-live-buffer", "file": _F, "rule": "R5", "find": '        self.buffers[self.selected_task].add_sample(*args, **kwargs)\n        self.active_buffers.add(self.selected_task)\n', "replace": '        if len(self.buffers[self.selected_task]) == 0 and self.selected_task not in self.active_buffers:\n            self.buffers[self.selected_task] = copy.deepcopy(self.buffers[0])\n        self.buffers[self.selected_task].add_sample(*args, **kwargs)\n        self.active_buffers.add(self.selected_task)\n'},
     {"id": "c02-positional-batch-storage-rebuilt", "file": _F, "rule": "R2", "edits": [("        indices = rng.integers(0, self.current_len, batch_size)\n        return self.Batch(\n            **{k: jnp.asarray(self.buffer[k][indices]) for k in self.buffer}\n        )", "        indices = rng.integers(0, self.current_len, batch_size)\n        return self.Batch(\n            *(jnp.asarray(v[indices]) for v in self.buffer.values())\n        )"), ("        if self.current_len == 0:\n            for k, v in sample.items():\n                assert k in self.buffer, f\"{k} not in {self.buffer.keys()}\"\n                self.buffer[k] = np.empty(\n                    (self.buffer_size,) + np.asarray(v).shape,\n                    dtype=self.buffer[k].dtype,\n                )\n        for k, v in sample.items():\n            self.buffer[k][self.insert_idx] = v\n        self.insert_idx =", "        if self.current_len == 0:\n            storage = OrderedDict()\n            for k, v in sample.items():\n                storage[k] = np.empty(\n                    (self.buffer_size,) + np.asarray(v).shape,\n                    dtype=self.buffer[k].dtype,\n                )\n            self.buffer = storage\n        for k, v in sample.items():\n            self.buffer[k][self.insert_idx] = v\n        self.insert_idx =")]},
@@ -1480,6 +1927,12 @@ MUTANTS = [
     {"id": "c02-mt-init-all-active", "file": _F, "rule": "R5", "find": "        self.selected_task = 0\n        self.active_buffers = set()", "replace": "        self.selected_task = 0\n        self.active_buffers: set[int] = set(range(n_tasks))"},
     {"id": "c02-mt-len-first-member", "file": _F, "rule": "R6", "find": "        return sum(len(buffer) for buffer in self.buffers)", "replace": "        total = self.buffers[0].current_len\n        return total"},
     {"id": "c02-lap-len-capacity", "file": _F, "rule": "R6", "find": "    def update_priority(self, priority):\n        self.priority.update_priority(priority)\n\n    def reset_max_priority(self):\n        self.priority.reset_max_priority(self.current_len)\n\nclass PrioritizedReplayBuffer", "replace": "    def __len__(self):\n        return self.buffer_size\n\n    def update_priority(self, priority):\n        self.priority.update_priority(priority)\n\n    def reset_max_priority(self):\n        self.priority.reset_max_priority(self.current_len)\n\nclass PrioritizedReplayBuffer"},
+    {"id": "c02-sampler-delegates-with-capacity", "file": _F, "rule": "R3", "find": _STRAT, "replace": "        drawn = self.priority.prioritized_sampling(self.buffer_size, batch_size, rng, mask)\n        return drawn\n"},
+    {"id": "c02-pickle-trims-to-write-position", "file": _F, "rule": "R7", "nth": 0, "find": _GS, "replace": _gs("        d[\"buffer\"] = {name: np.array(column[: self.insert_idx]) for name, column in self.buffer.items()}\n")},
+    {"id": "c02-pickle-drops-first-row", "file": _F, "rule": "R7", "nth": 0, "find": _GS, "replace": _gs("        kept = OrderedDict()\n        for name in self.buffer:\n            column = self.buffer[name]\n            kept[name] = column[1:] if len(self) else column\n        d[\"buffer\"] = kept\n")},
+    {"id": "c02-shrink-to-write-position", "file": _F, "rule": "R7", "nth": 0, "find": _GS, "replace": _GS + "\n    def shrink_to_fit(self):\n        upto = self.insert_idx\n        for name in self.buffer:\n            self.buffer[name] = self.buffer[name][:upto].copy()\n"},
+    {"id": "c02-mt-position-in-active-list-as-task", "file": _F, "rule": "R5", "find": "        self.sampled_task_idx = rng.choice(list(self.active_buffers), size=1)[0]", "replace": "        with_data = sorted(self.active_buffers)\n        self.sampled_task_idx = int(rng.integers(len(with_data)))"},
+    {"id": "c02-mt-member-drawn-from-all-buffers", "file": _F, "rule": "R5", "find": "        self.sampled_task_idx = rng.choice(list(self.active_buffers), size=1)[0]\n\n        return self.buffers[self.sampled_task_idx].sample_batch(", "replace": "        self.sampled_task_idx = rng.choice(list(self.active_buffers), size=1)[0]\n        member = rng.choice(self.buffers)\n        return member.sample_batch("},
 ]
 _ALLOC = "        if self.current_len == 0:\n            for k, v in sample.items():\n                assert k in self.buffer, f\"{k} not in {self.buffer.keys()}\"\n                self.buffer[k] = np.empty(\n                    (self.buffer_size,) + np.asarray(v).shape,\n                    dtype=self.buffer[k].dtype,\n                )\n        for k, v in sample.items():\n            self.buffer[k][self.insert_idx] = v\n        self.insert_idx = (self.insert_idx + 1) % self.buffer_size\n        self.current_len = min(self.current_len + 1, self.buffer_size)\n\n    def sample_batch(\n        self, batch_size: int, rng: np.random.Generator\n    ) -> tuple[jnp.ndarray]:"
 BENIGN = [
@@ -1513,4 +1966,18 @@ BENIGN = [
     {"id": "c02-b-mt-init-annotated-renamed-parameter", "file": _F, "edits": [("    def __init__(self, replay_buffer, n_tasks: int):\n        self.buffers = [replay_buffer]\n        for _ in range(n_tasks - 1):\n            self.buffers.append(copy.deepcopy(replay_buffer))", "    def __init__(self, prototype, n_tasks: int):\n        self.buffers: list = [prototype]\n        for _ in range(n_tasks - 1):\n            clone = copy.deepcopy(prototype)\n            self.buffers.append(clone)"), ("        self.selected_task = 0\n        self.active_buffers = set()", "        self.selected_task = 0\n        self.active_buffers: set[int] = set()")]},
     {"id": "c02-b-mt-sample-batch-local-keyword-population", "file": _F, "find": "        self.sampled_task_idx = rng.choice(list(self.active_buffers), size=1)[0]\n\n        return self.buffers[self.sampled_task_idx].sample_batch(\n            *args, rng=rng, **kwargs\n        )", "replace": "        self.sampled_task_idx = rng.choice(a=list(self.active_buffers), size=1)[0]\n\n        batch = self.buffers[self.sampled_task_idx].sample_batch(\n            *args, rng=rng, **kwargs\n        )\n        return batch"},
     {"id": "c02-b-mt-len-local-total", "file": _F, "find": "        return sum(len(buffer) for buffer in self.buffers)", "replace": "        total = int(sum([buffer.current_len for buffer in self.buffers]))\n        return total"},
+    {"id": "c02-b-sampler-delegates-by-keyword", "file": _F, "find": _STRAT, "replace": "        store = self.priority\n        drawn = store.prioritized_sampling(rng=rng, mask=mask, batch_size=batch_size, current_len=current_len)\n        return drawn\n"},
+    {"id": "c02-b-sampler-delegates-on-one-branch", "file": _F, "find": _STRAT, "replace": "        if batch_size == 1:\n            return self.priority.prioritized_sampling(current_len, batch_size, rng, mask)\n" + _STRAT},
+    {"id": "c02-b-pickle-trims-to-current-len", "file": _F, "nth": 0, "find": _GS, "replace": _gs("        n = len(self)\n        d[\"buffer\"] = OrderedDict((name, column[:n].copy()) for name, column in self.buffer.items())\n")},
+    {"id": "c02-b-pickle-trims-unwrapped-to-write-position", "file": _F, "nth": 0, "find": _GS, "replace": _gs("        if self.current_len < self.buffer_size:\n            d[\"buffer\"] = {name: column[: self.insert_idx] for name, column in self.buffer.items()}\n")},
+    {"id": "c02-b-pickle-trims-conditional-expression", "file": _F, "nth": 0, "find": _GS, "replace": _gs("        d[\"buffer\"] = {name: (column if self.current_len == self.buffer_size else column[: max(self.insert_idx, 1)]) for name, column in self.buffer.items()}\n")},
+    {"id": "c02-b-slice-in-statistic-not-stored", "file": _F, "nth": 0, "find": _GS, "replace": _GS + "\n    def rows_before_cursor_mean(self):\n        return {name: column[: self.insert_idx].mean() for name, column in self.buffer.items()}\n"},
+    {"id": "c02-b-pickle-chronological-pieces", "file": _F, "nth": 0, "find": _GS, "replace": _gs("        i = self.insert_idx\n        d[\"ordered\"] = {name: np.concatenate([column[i:], column[:i]]) for name, column in self.buffer.items()}\n        del d[\"ordered\"]\n")},
+    {"id": "c02-b-mt-sample-position-of-sorted-active", "file": _F, "find": "        self.sampled_task_idx = rng.choice(list(self.active_buffers), size=1)[0]\n\n        return self.buffers[self.sampled_task_idx].sample_batch(", "replace": "        with_data = sorted(self.active_buffers)\n        self.sampled_task_idx = with_data[int(rng.integers(len(with_data)))]\n        member = self.buffers[self.sampled_task_idx]\n        return member.sample_batch("},
+    {"id": "c02-b-mt-active-set-of-members", "file": _F, "edits": [("        self.buffers[self.selected_task].add_sample(*args, **kwargs)\n        self.active_buffers.add(self.selected_task)", "        member = self.buffers[self.selected_task]\n        member.add_sample(*args, **kwargs)\n        self.active_buffers.add(member)"), ("        self.sampled_task_idx = rng.choice(list(self.active_buffers), size=1)[0]\n\n        return self.buffers[self.sampled_task_idx].sample_batch(", "        pool = [b for b in self.buffers if b in self.active_buffers]\n        chosen = pool[rng.choice(len(pool))]\n        self.sampled_task_idx = self.buffers.index(chosen)\n        return chosen.sample_batch(")]},
+    {"id": "c02-b-integers-min-with-capacity", "file": _F, "find": "        indices = rng.integers(0, self.current_len, batch_size)", "replace": "        indices = rng.integers(0, min(self.current_len, self.buffer_size), batch_size)"},
+    {"id": "c02-b-len-min-with-capacity", "file": _F, "nth": 0, "find": "        \"\"\"Return current number of stored transitions in the replay buffer.\"\"\"\n        return self.current_len", "replace": "        return min(self.buffer_size, self.current_len)"},
+    {"id": "c02-b-lap-sampler-gets-clipped-len", "file": _F, "find": "        indices = self.priority.prioritized_sampling(\n            self.current_len, batch_size, rng\n        )", "replace": "        indices = self.priority.prioritized_sampling(min(len(self), self.buffer_size), batch_size, rng)"},
+    {"id": "c02-b-mt-sample-single-task-shortcut", "file": _F, "find": "        self.sampled_task_idx = rng.choice(list(self.active_buffers), size=1)[0]\n\n        return self.buffers[self.sampled_task_idx].sample_batch(", "replace": "        if len(self.active_buffers) == 1:\n            idx = next(iter(self.active_buffers))\n        else:\n            idx = rng.choice(list(self.active_buffers), size=1)[0]\n        self.sampled_task_idx = idx\n        return self.buffers[idx].sample_batch("},
+    {"id": "c02-b-mt-sample-star-display-permuted", "file": _F, "find": "        self.sampled_task_idx = rng.choice(list(self.active_buffers), size=1)[0]", "replace": "        with_data = (*self.active_buffers,)\n        self.sampled_task_idx = rng.permutation(with_data)[0]"},
 ]
